@@ -792,6 +792,12 @@ def mon_C10(t):
             ent = sb[k]
             if ent[3] != -1 and ent[3] < now:
                 out.append(fail(t, i, "sweep-missed-due-key", "sweep at clock %d visited shard %d but left key %d (expiry %d) in place" % (now, sh, k, ent[3])))
+        # the same from the store alone (independent of what the expiry index holds): a stored key whose expiry has passed and
+        # belongs to the visited shard does not survive the sweep
+        if r["roles"]["worker"] in ("alive", "running", "draining") and not t.before[i]["shut"]:
+            for k, ent in sb.items():
+                if ent[3] != -1 and ent[3] < now and (ent[3] // SEC) % shards == sh and k in sa and k not in expect_removed:
+                    out.append(fail(t, i, "sweep-missed-due-key", "sweep at clock %d visited shard %d but left key %d (expiry %d, id %d) in place: the expiry index does not list it" % (now, sh, k, ent[3], ent[2])))
         if not (set(sb) - removed <= set(sa)):
             pass
         if r["snap"]["used"] != t.before[i]["used"] - released:
